@@ -162,6 +162,52 @@ var badKinds = []badKind{
 	}},
 }
 
+// decoyOptions: configuration entries keyed by the unmappable field that are NOT exclusions.
+var decoyOptions = []struct {
+	name  string
+	apply func(c *spec.Config, keys []string)
+}{
+	{"schema_types", func(c *spec.Config, keys []string) {
+		if c.SchemaTypes == nil {
+			c.SchemaTypes = map[string]spec.SchemaType{}
+		}
+		for _, k := range keys {
+			c.SchemaTypes[k] = spec.SchemaType{Type: "SimStrType", ValueType: "SimStrValue", CastToType: "string", CastFromType: "string"}
+		}
+	}},
+	{"flags+name+validators", func(c *spec.Config, keys []string) {
+		if c.NameOverrides == nil {
+			c.NameOverrides = map[string]string{}
+		}
+		if c.Validators == nil {
+			c.Validators = map[string][]string{}
+		}
+		if c.PlanModifiers == nil {
+			c.PlanModifiers = map[string][]string{}
+		}
+		for _, k := range keys {
+			c.ComputedFields = append(c.ComputedFields, k)
+			c.SensitiveFields = append(c.SensitiveFields, k)
+			c.NameOverrides[k] = "renamed_bad"
+			c.Validators[k] = []string{"UseSimValidator()"}
+			c.PlanModifiers[k] = []string{"PathModifier()"}
+		}
+	}},
+	{"suffix+injected", func(c *spec.Config, keys []string) {
+		if c.Suffixes == nil {
+			c.Suffixes = map[string]string{}
+		}
+		if c.InjectedFields == nil {
+			c.InjectedFields = map[string][]spec.Injected{}
+		}
+		for _, k := range keys {
+			c.Suffixes[k] = "Bad"
+			c.RequiredFields = append(c.RequiredFields, k)
+			c.InjectedFields[k[:strings.LastIndex(k, ".")]] = []spec.Injected{{Name: "injected_next_to_bad", Type: "github.com/hashicorp/terraform-plugin-framework/types.StringType", Optional: true}}
+		}
+	}},
+}
+
 // positions: message that receives the bad field, whether it goes first / last, oneof membership.
 type badPos struct {
 	name  string
@@ -286,6 +332,22 @@ func C18RealCases(seed uint64, tier string) ([]*Case, map[string]int) {
 				kinds["unmappable"]++
 				cases = append(cases, &Case{Property: "C18", Clause: clause, Seed: seed, Tier: tier, Program: p,
 					Ref: refRun(b), Run: run, Expect: Expect{Kind: "atomic", Roots: p.Config.Types, Affected: aff}})
+
+				// options aimed at the unmappable field itself (other than exclusion) do not make it mappable
+				if pos.oneof == "" && (pos.name == "direct-last" || pos.name == "nested+list-element" || pos.name == "map-value" || pos.name == "depth-2" || tier == "thorough") {
+					typeKey := pos.msg[strings.LastIndex(pos.msg, ".")+1:] + "." + fname
+					keys := []string{typeKey}
+					if pos.pathKeys != nil {
+						keys = append(keys, pos.pathKeys(fname)...)
+					}
+					for _, dk := range decoyOptions {
+						pd := cloneProgram(p)
+						dk.apply(&pd.Config, keys)
+						kinds["unmappable+option"]++
+						cases = append(cases, &Case{Property: "C18", Clause: fmt.Sprintf("unmappable+%s/%s@%s", dk.name, k.name, pos.name), Seed: seed, Tier: tier, Program: pd,
+							Ref: refRun(b), Run: runFrom(pd.Config.Render(nil, nil)), Expect: Expect{Kind: "atomic", Roots: p.Config.Types, Affected: aff}})
+					}
+				}
 
 				// exclusion by Message.Field restores everything
 				var restoredRoots []string
